@@ -156,6 +156,55 @@ def run(ck):
                         ok = True
             ck.verdict(ok, "2", "T6-provenance", b, "other-timeout-store-is-a-remaining-time-adjustment", "the only other rewrite of the timeout subtracts the elapsed time after an interrupted wait", "the timeout is overwritten with an unrelated value", site=b.where(i))
 
+    # .. and a finite timeout stays finite: `None` means "wait for ever", so no rewrite of the timeout may turn `Some(_)`
+    # into `None`. Every value stored into it is a `Some(..)` built on the spot, the timeout itself, or a `None` built on
+    # the `None` arm of a test of the timeout itself (the expansion of `timeout.map(..)`); the result of a fallible
+    # computation (`checked_sub`, `filter`, ..) is not: when it comes back empty the dispatch never returns.
+    def _none_guard_edges():
+        out = []
+        for sw in T.switches_on_expr(b, lambda e: e[0] == "discr"):
+            kind, aps = T.switch_reads(b, sw)
+            if kind == "discr" and any(r_ == ("arg", 2) and not p_ for r_, p_ in aps):
+                out += T.discr_edges(b, sw, 0)
+        return out
+
+    def _finite(i, rv, depth=0):
+        """None if the stored value cannot be a `None` made from a `Some`, else a description"""
+        if rv["r"] == "agg":
+            if rv.get("variant") == "Some":
+                return None
+            if rv.get("variant") == "None":
+                ng = _none_guard_edges()
+                return None if ng and T.reachable_only_via(b, i, ng) else "a literal None"
+            return "an aggregate %s" % rv.get("variant")
+        if rv["r"] != "use":
+            return "a computed value (%s)" % rv["r"]
+        for r_, p_ in b.resolve(rv["o"]):
+            if r_ == ("arg", 2) and not [e for e in p_ if e not in ("&", "*")]:
+                continue
+            if r_[0] == "agg":
+                d = _finite(r_[1], b.agg_at(r_[1], r_[2]), depth + 1)
+                if d is not None:
+                    return d
+                continue
+            if r_[0] == "call":
+                c = b.call_at(r_[1])
+                return "the result of %s" % ((c.f or {}).get("path") or c.name)
+            return "a value of unknown origin %s" % (r_,)
+        return None
+
+    nfin = 0
+    for i, j, st in b.statements():
+        if st["s"] == "assign" and st["pl"]["l"] == 2 and not st["pl"]["p"] and not b.is_cleanup(i):
+            nfin += 1
+            d = _finite(i, st["rv"])
+            ck.verdict(d is None, "2", "T6-provenance", b, "finite-timeout-stays-finite", "the value stored into the timeout is Some(..), the timeout itself, or None on the None arm of a test of the timeout", "the timeout is overwritten with %s, which can be None although the caller gave a finite timeout: the poller then waits for ever and dispatch(Some(d)) never returns" % d, site=b.where(i))
+    for c in b.calls():
+        if not b.is_cleanup(c.bb) and c.dest["l"] == 2 and not c.dest["p"]:
+            nfin += 1
+            ck.verdict(False, "2", "T6-provenance", b, "finite-timeout-stays-finite", "", "the timeout is overwritten with the result of %s, which can be None although the caller gave a finite timeout: the poller then waits for ever and dispatch(Some(d)) never returns" % ((c.f or {}).get("path") or c.name), site=b.where(c.bb))
+    ck.floor("2", "rewrites of the timeout checked for finiteness", nfin, 2)
+
     # ---- clause 1b: the clamping deadline belongs to an armed timer ---------------------------------------------------
     C05.cancel_rules(ck, "1b")
     ndb = ck.opt_body("TimerWheel::next_deadline")
